@@ -433,16 +433,46 @@ class HarnessError(Exception):
     """Something is wrong in /verif code or the model: never a violation, never exit 0."""
 
 
+RUN_LIMIT_S = float(os.environ.get("VERIF_RUN_LIMIT_S", "90"))
+
+
+class RunDoesNotReturn(BaseException):
+    """Raised by the per-run alarm inside whatever code is executing."""
+
+
 def guarded_execute(engine, case, pid):
     """engine.execute, with an exception that escapes from the code under test (and that the
     engine did not expect, as it does under injected faults) turned into a violation: every
     claimed property is about an operation that returns.  An exception raised by /verif code
     stays what it is (a harness error).  Decided on the innermost traceback frame that belongs
     to either side; frames of third-party libraries in between are skipped."""
+    import signal
     import traceback
 
+    # A simulated run takes milliseconds (the slowest brute-force oracle a few seconds).  One
+    # that is still going after RUN_LIMIT_S of wall time does not return: reported as a violation
+    # of the property in focus (every claimed property is about an operation that returns)
+    # instead of waiting for the batch watchdog, which can only kill the worker (exit 2).  The
+    # limit is a watchdog, not part of the simulated semantics: no decision of a run that
+    # finishes depends on it.
+    def _expired(signum, frame):
+        raise RunDoesNotReturn()
+
+    armed = False
+    if RUN_LIMIT_S > 0 and hasattr(signal, "setitimer"):
+        try:
+            previous = signal.signal(signal.SIGALRM, _expired)
+            signal.setitimer(signal.ITIMER_REAL, RUN_LIMIT_S)
+            armed = True
+        except ValueError:  # not in the main thread: no per-run limit
+            armed = False
     try:
         return engine.execute(case, focus=pid)
+    except RunDoesNotReturn:
+        raise Violation((pid,), f"{pid}.does-not-return",
+                        f"the simulated run was still executing after {RUN_LIMIT_S:.0f} s of "
+                        f"wall time (a normal run takes milliseconds): an operation of the "
+                        f"package does not return on this well-formed input") from None
     except (Violation, HarnessError, SimDrift, MemoryError):
         raise
     except Exception as exc:  # noqa: BLE001
@@ -458,6 +488,10 @@ def guarded_execute(engine, case, pid):
                                 f"{type(exc).__name__}: {str(exc)[:300]} raised at {where} on a "
                                 f"well-formed input") from None
         raise
+    finally:
+        if armed:
+            signal.setitimer(signal.ITIMER_REAL, 0)
+            signal.signal(signal.SIGALRM, previous)
 
 
 class Run:
